@@ -508,6 +508,12 @@ func (e *Env) Loop(w World) {
 		}
 		P := e.RT.Runnable()
 		if len(P) == 0 {
+			// nothing is runnable: the world may judge the quiescent state
+			// before the clock is allowed to jump
+			w.Idle(e)
+			if e.stop {
+				break
+			}
 			if w.Finished(e) {
 				break
 			}
@@ -518,10 +524,6 @@ func (e *Env) Loop(w World) {
 			synctest.Wait()
 			if len(e.RT.Runnable()) > 0 {
 				continue
-			}
-			w.Idle(e)
-			if e.stop {
-				break
 			}
 			h := time.Duration(e.Cfg.HorizonNs)
 			if h <= 0 {
